@@ -8,6 +8,7 @@
 (*   [k |-> "obj", ps, end]      ps = sequence of [key |-> S, v |-> value]                      *)
 (*   [k |-> "ecma", ps, cnt, end]   cnt = announced count (-1 = 2^32-1)                         *)
 (*   [k |-> "strict", vs, cnt]                                                                  *)
+(*   [k |-> "lstr", decl, s]  long string with a declared length that differs from its bytes     *)
 (*   [k |-> "deep", kind, n, leaf]  n-fold nesting of `kind` around leaf (never expanded here)  *)
 (* Strings S = [n |-> length, id |-> position-code id, s |-> literal text or ""]                *)
 (* Tokens: [t |-> "m"|"b8"|"u16"|"u32"|"f64"|"raw", v, sz]                                      *)
@@ -32,6 +33,7 @@ Enc(v) ==
   CASE v.k = "num"    -> <<M(0), F64(v.id)>>
     [] v.k = "bool"   -> <<M(1), B8(IF v.b THEN 1 ELSE 0)>>
     [] v.k = "str"    -> EncStr(v.s)
+    [] v.k = "lstr"   -> <<M(12), U32(v.decl), Raw(v.s)>>   \* long string whose declared length is v.decl
     [] v.k = "null"   -> <<M(5)>>
     [] v.k = "undef"  -> <<M(6)>>
     [] v.k = "unk"    -> <<M(v.m)>>
@@ -92,6 +94,7 @@ DecVal(toks, i, avail, d, inner) ==
       [] m = 1 -> IF Has(toks, i + 1, avail) THEN [ok |-> TRUE, val |-> [k |-> "bool", b |-> toks[i+1].v # 0], next |-> i + 2] ELSE Err
       [] m \in {2, 12} ->
            IF ~(Has(toks, i + 1, avail) /\ Has(toks, i + 2, avail)) THEN Err
+           ELSE IF toks[i+1].v # toks[i+2].sz THEN Err      \* declared length exceeds what follows (-k = 2^32-k)
            ELSE [ok |-> TRUE, val |-> [k |-> "str", s |-> [n |-> toks[i+1].v, id |-> toks[i+2].v.id, s |-> toks[i+2].v.s]],
                  next |-> i + 3]
       [] m \in {5, 6, 13} -> [ok |-> TRUE, val |-> Skip, next |-> i + 1]
